@@ -11,6 +11,7 @@ code: all schedules with a bounded number of pre-emptions (CHESS style, by re-ex
 """
 import os
 import struct
+import time
 import warnings
 from fractions import Fraction
 
@@ -75,11 +76,37 @@ class _Pin(object):
     """Scheduled threads hand over to each other thousands of times per second; on this machine
     a cross-CPU wake-up costs ~0.5 ms and a same-CPU one ~5 us, so the run is pinned to one CPU."""
 
+    chosen = None
+    chosen_at = 0.0
+
+    @staticmethod
+    def _idlest(cpus):
+        """the allowed CPU that was idlest over the last 40 ms (other checks run on this machine)"""
+        def snap():
+            out = {}
+            with open("/proc/stat") as f:
+                for line in f:
+                    if line.startswith("cpu") and line[3].isdigit():
+                        parts = line.split()
+                        out[int(parts[0][3:])] = int(parts[4]) + int(parts[5])
+            return out
+        try:
+            a = snap()
+            time.sleep(0.04)
+            b = snap()
+            return max(cpus, key=lambda c: b.get(c, 0) - a.get(c, 0))
+        except (OSError, ValueError, IndexError):
+            return cpus[os.getpid() % len(cpus)]
+
     def __enter__(self):
         try:
             self.save = os.sched_getaffinity(0)
             cpus = sorted(self.save)
-            os.sched_setaffinity(0, {cpus[os.getpid() % len(cpus)]})
+            now = time.time()
+            if _Pin.chosen not in cpus or now - _Pin.chosen_at > 15:
+                _Pin.chosen = self._idlest(cpus)
+                _Pin.chosen_at = now
+            os.sched_setaffinity(0, {_Pin.chosen})
         except (AttributeError, OSError):
             self.save = None
 
